@@ -85,6 +85,7 @@ type fakeIdp struct {
 	// idTokenHook may rewrite the claims / produce the serialized id_token (C03)
 	idTokenHook func(claims map[string]any, req *authReq) (string, bool)
 	omitIDToken bool
+	omitRefreshToken bool // the code grant answers without refresh_token (optional per RFC 6749 §5.1)
 	jwksNoAlg   bool
 }
 
@@ -325,6 +326,10 @@ func (ip *fakeIdp) token(w http.ResponseWriter, r *http.Request) {
 		resp := map[string]any{"access_token": at, "token_type": "Bearer", "refresh_token": rt, "expires_in": int64(ip.tokenDuration.Seconds())}
 		if !ip.omitIDToken {
 			resp["id_token"] = idt
+		}
+		if ip.omitRefreshToken {
+			delete(resp, "refresh_token")
+			delete(ip.refresh, rt)
 		}
 		call.Status, call.Outcome = 200, "ok"
 		w.Header().Set("content-type", "application/json")
